@@ -660,7 +660,9 @@ func TestVerifC15PointStream(t *testing.T) {
 		}
 		var buf bytes.Buffer
 		enc := query.NewIteratorEncoder(&buf)
-		enc.StatsInterval = time.Hour
+		// statistics frames are interleaved with the points whenever the encoder's ticker fires; with the shortest
+		// interval that happens between almost any two points, with an hour never (the frames must not cost a point)
+		enc.StatsInterval = rapid.SampledFrom([]time.Duration{time.Hour, time.Nanosecond, time.Nanosecond, 20 * time.Microsecond}).Draw(rt, "statsInterval")
 		var pan interface{}
 		var err error
 		withTrace := rapid.Bool().Draw(rt, "trace")
